@@ -338,7 +338,7 @@ def verify_contract(I: Interp, c: Contract, prop, only_case=None, prefix=None, l
             I.ctx = None
             tag = f'[{case.name}]#{ptag}{pi}'
             if o['kind'] == 'unsupported':
-                dead, _, _, _ = solve(z3.BoolVal(False), o['pc'], timeout_ms=5000, fallback=False)
+                dead, _, _, _ = solve(z3.BoolVal(False), o['pc'], fallback=True)
                 if dead != 'discharged':
                     records.append(dict(name=f'{prop}/{c.name}/path{tag}', kind='post', verdict='unknown', backend='pyvc', ms=0, inputs=None,
                                         case=case.name, detail='path not analysable: ' + o['value']))
